@@ -466,13 +466,13 @@ fn dhcp_scenario(env: &Env, k: u64, case: u64, rng: &mut rand::rngs::SmallRng, d
 
 fn run(env: &Env, k: u64, d: &mut Delta) {
     let mut rng = scenario_rng("C15", env.seed, k);
-    if k % 3 == 2 {
+    if k % 3 == 2 && env.tier != crate::Tier::Tiny {
         for case in 0..env.tier.pick(6, 10) {
             let multi = if case % 3 == 2 { Some(*rng.pick(&[2usize, 4, 16])) } else { None };
             dhcp_scenario(env, k, case, &mut rng, d, multi);
         }
     } else {
-        for i in 0..env.tier.pick(450, 1900) {
+        for i in 0..env.tier.pick3(450, 1900, 6) {
             generator_history(d, &mut rng, i == 0 && k < 2);
         }
     }
